@@ -11,6 +11,9 @@
 #include <netinet/in.h>
 #include <arpa/inet.h>
 #include <time.h>
+#include <sys/un.h>
+#include "ctl_proto.h"
+#include "xcm_tp.h"
 
 static int armed;                 /* inside an XCM call on a non-blocking socket */
 static char offences[4096]; static size_t off_len; static int n_off;
@@ -178,6 +181,45 @@ int main(void)
 	    CALL("xcm_close", xcm_close(t.client)); t.client = NULL;
 	    CALL("xcm_close(server)", xcm_close(t.server)); t.server = NULL;
 	    report(o, "server+close");
+	} else if (!strcmp(w[0], "BPC") && n == 2) {
+	    /* close under back-pressure: the peer is alive but does not read; the sender has filled every buffer */
+	    struct trio t;
+	    if (sys_establish(proto, &t, NULL, NULL) < 0) { fprintf(o, "fail %s\n", h_errname(errno)); fflush(o); continue; }
+	    static char big[60000]; memset(big, 'y', sizeof(big));
+	    int rc = 0, eag = 0;
+	    for (int i = 0; i < 4000 && eag < 3; i++) {
+		CALL("xcm_send(bp)", rc = xcm_send(t.client, big, sizeof(big)));
+		if (rc < 0 && errno == EAGAIN) eag++; else if (rc < 0) break; else eag = 0;
+	    }
+	    CALL("xcm_close(under back-pressure)", xcm_close(t.client)); t.client = NULL;
+	    report(o, "close-backpressure");
+	    sys_close_trio(&t);
+	} else if (!strcmp(w[0], "CTLFLOOD") && n == 2) {
+	    /* a control client pipelines requests and never reads the replies, while the owner keeps calling the API on its
+	       non-blocking sockets: the control interface must not make those calls wait */
+	    struct trio t;
+	    if (sys_establish(proto, &t, NULL, NULL) < 0) { fprintf(o, "fail %s\n", h_errname(errno)); fflush(o); continue; }
+	    char b[16];
+	    for (int i = 0; i < 600; i++) { xcm_finish(t.client); xcm_receive(t.client, b, sizeof(b)); }
+	    const char *dir = getenv("XCM_CTL");
+	    char path[300]; snprintf(path, sizeof(path), "%s/ctl-%d-%lld", dir ? dir : "/nonexistent", (int)getpid(), (long long)t.client->sock_id);
+	    int cfd = socket(AF_UNIX, SOCK_SEQPACKET | SOCK_NONBLOCK, 0);
+	    struct sockaddr_un sa = { .sun_family = AF_UNIX }; snprintf(sa.sun_path, sizeof(sa.sun_path), "%s", path);
+	    int crc = __real_connect(cfd, (struct sockaddr *)&sa, sizeof(sa));
+	    struct ctl_proto_msg *q = calloc(1, sizeof(*q));
+	    q->type = ctl_proto_type_get_all_attr_req;
+	    int piped = 0;
+	    for (int i = 0; i < 3000 && crc == 0; i++) {
+		if (__real_send(cfd, q, sizeof(*q), MSG_NOSIGNAL) > 0) piped++;
+		CALL("xcm_finish(ctl flood)", xcm_finish(t.client));
+		CALL("xcm_receive(ctl flood)", xcm_receive(t.client, b, sizeof(b)));
+		CALL("xcm_send(ctl flood)", xcm_send(t.client, "x", 1));
+		if (slowest > 0.5 || n_off) break;
+	    }
+	    free(q);
+	    fprintf(o, "ctl=%d piped=%d ", crc, piped); report(o, "ctl-flood");
+	    close(cfd);
+	    sys_close_trio(&t);
 	} else if (!strcmp(w[0], "MUTE") && n == 2) {
 	    /* peer: a raw TCP listener that accepts (kernel) but never speaks: TCP established, TLS handshake stuck */
 	    int port, lfd = raw_listener(16, &port);
